@@ -550,7 +550,9 @@ def check_sessions(ctx, sessions, xcheck):
             codes = sx.txts(o[0])
             m_codes.append(codes[0] if codes else None)
             if codes[:1] == ["257"] and inp[1].upper().startswith("PWD"):
-                m_pwd.append(sx.txt(o[1])[1:-1])
+                # the model records the 257 text as the server formats it (quotes doubled); the implementation side is
+                # the directory the client decoded from it, so undouble (the inverse on doubled strings)
+                m_pwd.append(sx.txt(o[1])[1:-1].replace('""', '"'))
             if o[2]:
                 m_retr.append(bytes(o[2][0]))
             if o[3]:
